@@ -46,6 +46,7 @@ type Engine struct {
 	ghostElemType map[string]types.Type
 	nativeExterns map[string]func(fr *frame, args []SV, cur *State, rtyp types.Type) SV
 	ghostSafeList []string
+	invariants    map[string]*Invariant
 	mu            sync.Mutex
 }
 
@@ -70,6 +71,12 @@ func newEngine(repo, specDir string, patterns []string) (*Engine, error) {
 	e.contracts, e.ghosts, e.files, err = loadContracts(repo, specDir)
 	if err != nil {
 		return nil, err
+	}
+	e.invariants = map[string]*Invariant{}
+	for _, cf := range e.files {
+		for _, inv := range cf.Invariants {
+			e.invariants[inv.Name] = inv
+		}
 	}
 	if err := e.loadPrelude(); err != nil {
 		return nil, err
@@ -255,6 +262,10 @@ func (e *Engine) loadPrelude() error {
 // transitively, and every axiom all of whose trigger names... (an axiom is included when it
 // mentions at least one used name; the names it mentions are then pulled in too).
 func (e *Engine) preludeText(used map[string]bool) string {
+	return e.preludeTextOpt(used, true)
+}
+
+func (e *Engine) preludeTextOpt(used map[string]bool, axioms bool) string {
 	inc := map[string]bool{}
 	for k := range used {
 		inc[k] = true
@@ -294,7 +305,7 @@ func (e *Engine) preludeText(used map[string]bool) string {
 	}
 	var sb strings.Builder
 	for _, it := range e.preludeItems {
-		if chosen[it] {
+		if chosen[it] && (axioms || !it.IsAxiom || !strings.Contains(it.Text, "forall")) {
 			sb.WriteString(it.Text)
 			sb.WriteString("\n")
 		}
@@ -358,7 +369,7 @@ func (e *Engine) discharge(vcs []*VC, opts runOpts) {
 						to = 5 * time.Second
 					}
 				}
-				r := solve(q, j.o.Name, to, opts.all && j.o.Expect != "sat", opts.tmpdir)
+				r := solve(q, j.o.Name, to, opts.all && j.o.Expect != "sat", opts.tmpdir, j.o.Expect == "sat")
 				j.o.Answer, j.o.Solver, j.o.Ms, j.o.Output = r.Answer, r.Solver, r.Ms, r.Output
 			}
 		}()
